@@ -3,7 +3,7 @@
    coq/Ext/*Proofs.v and followed by Print Assumptions. *)
 From Coq Require Import List Ascii String NArith Bool.
 From ZenoV Require Import Ext.FileExt Ext.FileExtProofs Ext.Json Ext.JsonProofs Ext.Xml Ext.XmlProofs
-  Ext.M3u8 Ext.M3u8Proofs Ext.S3 Ext.S3Proofs.
+  Ext.M3u8 Ext.M3u8Proofs Ext.S3 Ext.S3Proofs Ext.Post Ext.PostProofs.
 Import ListNotations.
 
 (* ---- assets versus outlinks: hasFileExtension ---------------------------------------------- *)
@@ -118,6 +118,41 @@ Theorem C19_m3u8_only_found :
                     \/ (exists a, In (LAlt a) ls /\ a_uri a = u))).
 Proof. exact m3u8_only_found_lemma. Qed.
 Print Assumptions C19_m3u8_only_found.
+
+(* ---- what post-processing does with the URLs of a document ---------------------------------- *)
+
+(* For every fetched JSON / XML / sitemap / M3U8 document whose body reached post-processing, every
+   hop count and every --max-hops: URLs with a file extension (for a playlist: all URIs) become
+   children of the item at the item's hop count; the others are queued as outlinks one hop further,
+   exactly while the hop count is below --max-hops; a sitemap yields no child, all its URLs are
+   outlinks. *)
+Theorem C19_post_split : forall i u,
+  p_body i = true -> u <> p_self i ->
+  match p_doc i with
+  | PJson v valid =>
+      (In u (json_assets (tv valid) v) <-> In (u, p_hops i) (post_children i))
+      /\ ((p_hops i < p_maxhops i)%N -> (In u (json_outlinks (tv valid) v) <-> In (u, p_hops i + 1)%N (post_outlinks i)))
+  | PXml d =>
+      if is_sitemap d
+      then post_children i = []
+           /\ ((p_hops i < p_maxhops i)%N -> In u (xml_urls d) -> In (u, p_hops i + 1)%N (post_outlinks i))
+      else (In u (xml_assets d) <-> In (u, p_hops i) (post_children i))
+           /\ ((p_hops i < p_maxhops i)%N -> (In u (xml_outlinks d) <-> In (u, p_hops i + 1)%N (post_outlinks i)))
+  | PM3u8 p =>
+      (In u (m3u8_uris p) <-> In (u, p_hops i) (post_children i)) /\ post_outlinks i = []
+  end.
+Proof. exact post_split_lemma. Qed.
+Print Assumptions C19_post_split.
+
+(* The hop limit: at or beyond --max-hops nothing is queued as an outlink. *)
+Theorem C19_post_hop_guard : forall i, (p_maxhops i <= p_hops i)%N -> post_outlinks i = [].
+Proof. exact post_hop_guard_lemma. Qed.
+Print Assumptions C19_post_hop_guard.
+
+Theorem C19_post_hops : forall i u h,
+  (In (u, h) (post_children i) -> h = p_hops i) /\ (In (u, h) (post_outlinks i) -> h = (p_hops i + 1)%N).
+Proof. exact post_hops_lemma. Qed.
+Print Assumptions C19_post_hops.
 
 (* ---- bucket listings ----------------------------------------------------------------------- *)
 
